@@ -81,6 +81,16 @@ CHECKS = {
    "Generated + enumerated search: pairs/triples from per-type pools containing every special value are put into rows and the comparison facts read through WHERE-style expressions; GROUP BY, DISTINCT, COUNT(DISTINCT), MIN/MAX, PERCENTILE(0/1), JOIN, IN and array_unique must agree with the same = and <; non-NaN values are also checked against the reference order; INT x REAL by numeric value. All pool pairs (quick) / triples (thorough) are enumerated.",
    "Laws are observed behaviourally (a repair may live in Value or in its consumers); any total order is accepted for NaN; TZ=UTC.",
    "DESIGN.md §3 C16"),
+ "C18": (True,
+   "property-based testing: metamorphic byte-equality of output across repeated in-process executions (fresh hash seeds), fresh child processes and definition files with extra / reordered tables",
+   "Generated-input search: statements that push many items through the hash containers on the output path (`*` over 8-12 columns, up to 30 groups with 4-6 aggregates, joins with many partners and `*` over both tables, HAVING with hidden aggregates); text and JSON output must be byte-identical across 8 repetitions with 4 definition variants and, for a slice of cases, 4 fresh processes. Exploration; seed independence is sampled with a size argument for the miss probability.",
+   "Every HashMap::new() draws a fresh RandomState also inside one process; now() is never generated.",
+   "DESIGN.md §3 C18"),
+ "C19": (True,
+   "property-based testing over schedules: every interrupt point (each file_line / join_line probe, each printed record, each followed line) of generated statements and inputs, harness-owned flag clearing via the probe hook",
+   "Generated + per-case exhaustive search: for each generated statement and input the running flag is cleared at every probe event and after every printed record; execute() must be Ok, no input line may be consumed afterwards (<= 10 joined-file lines while loading), printed output must be a prefix of the uninterrupted output and an interrupted aggregate must print the table of exactly the consumed lines; a slice of cases runs the real FollowFileExecutor in a child process.",
+   "The signal handler in main.rs and wall-clock promptness are not exercised; the property quantifies over flag-clearing points, which the probes enumerate.",
+   "DESIGN.md §3 C19"),
 }
 
 NOT_YET = {
